@@ -224,6 +224,29 @@ end Pkg;
 """},
         "lib": {},
     },
+    "SameName": {
+        # a file of the same name (same path relative to its folder) in the model folder and in the library folder
+        "model": {"SameName.mo": """model SameName
+  PartM pm(g = {a});
+  PartL pl;
+  Real y;
+{EXTRA_DECL}equation
+  y = pm.out + pl.out * {b};
+{EXTRA_EQ}end SameName;
+""", "Parts.mo": """model PartM
+  parameter Real g = 1;
+  Real out(start = {c});
+equation
+  der(out) = -g * out * {d};
+end PartM;
+"""},
+        "lib": {"Parts.mo": """model PartL
+  Real out(start = {a});
+equation
+  der(out) = -{b} * out;
+end PartL;
+"""},
+    },
     "NeedsAdd": {
         "model": {"NeedsAdd.mo": """model NeedsAdd
   Added m(g = {a});
